@@ -1637,7 +1637,7 @@ impl Driver {
             Reply::Timeout => WReply { status: "hang".into(), sig: "C14/worker/no-answer/hang".into(), msg: "the worker process did not answer at all".into(), ..WReply::default() },
             Reply::Died(s) => return Err(s),
         };
-        if reply.status == "hang" || reply.status == "stall" {
+        if reply.status == "hang" || reply.status == "stall" || reply.status == "error" {
             // threads of that worker never come back
             self.worker = None;
         }
@@ -1662,7 +1662,7 @@ fn check(case: &Case, ctx: &mut Ctx, drv: &mut Driver) -> Verdict {
             return Ok(());
         }
     };
-    if reply.status == "hang" || reply.status == "stall" {
+    if reply.status == "hang" || reply.status == "stall" || reply.status == "error" {
         drv.hang_evals += 1;
         if !shrinking {
             // must reproduce in a fresh worker
@@ -1670,7 +1670,7 @@ fn check(case: &Case, ctx: &mut Ctx, drv: &mut Driver) -> Verdict {
             for _ in 0..2 {
                 drv.worker = None;
                 match drv.call(case, deadline) {
-                    Ok(r) if r.status == "hang" || r.status == "stall" => {
+                    Ok(r) if r.status == "hang" || r.status == "stall" || r.status == "error" => {
                         again = Some(r);
                         break;
                     }
